@@ -67,7 +67,13 @@ impl Walk<'_> {
             let n = children.len();
             let mut wrong: Option<String> = None;
             // from a fresh iterator (taken = 0) and from one resumed after `taken` calls of next()
+            // under Miri (iterator-only walk) the resumed comparisons are made at every 7th node, at the
+            // root and its children; the fresh-iterator comparison everywhere
+            let full = self.with_boards || self.nodes % 7 == 0 || path.len() <= 1;
             'prefixes: for taken in 0..=n {
+                if !full && taken > 0 {
+                    break;
+                }
                 let resumed = || {
                     let mut it = handle.into_iter();
                     for _ in 0..taken {
